@@ -153,6 +153,33 @@ pub fn gen(prop: &str, seed: u64, thorough: bool, out: &mut impl Write) {
                 emit(out, &c);
             }
         }
+        "C19" => {
+            for v in 0..=0xffffu64 {
+                emit(out, &[3, v]);
+                emit(out, &[7, v]);
+                emit(out, &[10, v]);
+                emit(out, &[1, v, v & 3]);
+                for rp in 0..4 { emit(out, &[2, v, rp]); }
+            }
+            emit(out, &[1, 5, 4]);
+            emit(out, &[2, 5, 7]);
+            for v in 0..=0xffu64 {
+                emit(out, &[5, v]);
+                emit(out, &[8, v]);
+                emit(out, &[9, v]);
+                emit(out, &[6, v]);
+            }
+            for n in 0..5u64 { emit(out, &[11, n]); }
+            for v in [0x1_0000u64, 0x1_0001, u64::MAX, 1 << 32, 0xffff_ffff] { emit(out, &[10, v]); }
+            let nbits = if thorough { 4000 } else { 150 };
+            for n in 0..4u64 { for cd in 0..4u64 { for sz in 0..4u64 {
+                for k in 0..nbits {
+                    let bits = match k % 6 { 0 => 0, 1 => u64::MAX, 2 => 0xFFFF_2BFF, 3 => 1u64 << (k % 64), 4 => rng.next() & 0xFFFF_2BFF, _ => rng.next() };
+                    emit(out, &[4, bits, n, cd, sz, rng.next()]);
+                }
+            }}}
+            emit(out, &[4, 0, 4, 0, 0, 0]);
+        }
         _ => panic!("gen_tbl: unknown property"),
     }
 }
@@ -391,6 +418,61 @@ fn judge(prop: &str, c: &[u64], a: &[i128]) -> (Option<&'static str>, Option<&'s
             }
             24 => { if a != [256, 4096, 16, 0xE00i128 << 32, 0] { return (Some("an untouched or reset table must be 256 non-present gates with the must-be-one type bits, 4096 bytes"), None, true); } (None, None, true) }
             25 => { if a != [4095, 0] { return (Some("loading must hand the CPU the table's own address with limit 4095"), None, true); } (None, None, true) }
+            _ => (None, None, false),
+        },
+        "C19" => match c[0] {
+            1 => {
+                let (i, rp) = (c[1] & 0xffff, c[2]);
+                if rp > 3 { return (if a == [-1] { None } else { Some("privilege level above 3 accepted") }, None, true); }
+                if i >= 8192 { return (None, None, false); }
+                if a != [((i << 3) | rp) as i128, i as i128, rp as i128] { return (Some("SegmentSelector::new(i, r) must have index i and RPL r"), None, true); }
+                (None, None, i == 0 || i == 8191 || rp != 0)
+            }
+            2 => {
+                let (raw, rp) = (c[1] & 0xffff, c[2]);
+                if rp > 3 { return (if a == [-1] { None } else { Some("privilege level above 3 accepted") }, None, true); }
+                if a != [(raw >> 3) as i128, (raw & 3) as i128, ((raw & !3) | rp) as i128] { return (Some("selector index = bits 3-15, RPL = bits 0-1, set_rpl changes only the RPL"), None, true); }
+                (None, None, raw & 4 != 0 || raw & 3 != rp)
+            }
+            3 => { let v = c[1] & 0xffff; if v < 4 { if a != [v as i128] { return (Some("PrivilegeLevel::from_u16 must be the identity on 0..3"), None, true); } } else if a != [-1] { return (Some("PrivilegeLevel::from_u16 must reject values above 3"), None, true); } (None, None, v < 8) }
+            4 => {
+                let (bits, n, cd, sz, fl) = (c[1], c[2], c[3], c[4], c[5] & 0x2BFF);
+                if n > 3 || cd > 3 || sz > 3 { return (if a == [-1] { None } else { Some("invalid register number accepted") }, None, true); }
+                const VALID: u64 = 0xFFFF_2BFF;
+                let v = bits & VALID;
+                let (cs, ss) = (16 + 4 * n, 18 + 4 * n);
+                let exp: Vec<i128> = vec![
+                    if bits & !VALID == 0 { bits as i128 } else { -2 },
+                    v as i128, (v & 0x2BFF) as i128, ((v >> cs) & 3) as i128, ((v >> ss) & 3) as i128,
+                    ((v & !(3 << cs)) | (cd << cs)) as i128, ((v & !(3 << ss)) | (sz << ss)) as i128,
+                    (v | fl) as i128, (v & !fl) as i128, (v ^ fl) as i128, (v | fl) as i128, (v & !fl) as i128,
+                ];
+                if a != exp.as_slice() { return (Some("DR7 condition/size fields must round-trip independently of each other and of the flag bits; from_bits accepts exactly the valid bits"), None, true); }
+                (None, None, bits & !VALID != 0 || v >> 16 != 0)
+            }
+            5 => { let n = c[1] & 0xff; if a != [if n < 4 { n as i128 } else { -2 }] { return (Some("debug register number must be 0..3"), None, true); } (None, None, n < 5) }
+            6 => {
+                let b = c[1];
+                let exp = [if b < 4 { b as i128 } else { -2 }, if b < 4 { b as i128 } else { -2 }, match b { 1 => 0, 2 => 1, 8 => 2, 4 => 3, _ => -2 }];
+                if a != exp { return (Some("breakpoint condition/size encodings"), None, true); }
+                (None, None, b < 9)
+            }
+            7 => { let p = c[1] & 0xffff; if a != [if p < 4096 { p as i128 } else { -2 }] { return (Some("Pcid::new must accept exactly values below 4096"), None, true); } (None, None, p >= 4094 && p <= 4097 || p == 0) }
+            8 => {
+                let v = c[1] & 0xff;
+                let valid = [0u64, 1, 2, 3, 4, 5, 6, 7, 8, 10, 11, 12, 13, 14, 16, 17, 18, 19, 20, 21, 28, 29, 30].contains(&v);
+                if a != [if valid { v as i128 } else { -2 }] { return (Some("ExceptionVector::try_from must accept exactly the architectural exception numbers and return the same number"), None, true); }
+                (None, None, v < 33)
+            }
+            9 => { let b = c[1] & 0xff; let valid = [0u64, 1, 4, 5, 6, 7].contains(&b); if a != [if valid { b as i128 } else { -2 }] { return (Some("PAT memory type encodings"), None, true); } (None, None, b < 9) }
+            10 => {
+                let v = c[1];
+                let t = v & 0xffff;
+                let exp = [if v <= 0xffff { v as i128 } else { -2 }, t as i128, (t & 1) as i128, match (t >> 1) & 3 { 0 => 0, 2 => 2, _ => 1 }, (t >> 3) as i128, (t == 0) as i128];
+                if a != exp { return (Some("selector error code fields are bits 0, 1-2, 3-15"), None, true); }
+                (None, None, t < 16 || v > 0xffff)
+            }
+            11 => { let n = c[1]; if n > 3 { return (if a == [-1] { None } else { Some("bad register accepted") }, None, true); } if a != [1i128 << n, 1i128 << (2 * n), 1i128 << (2 * n + 1)] { return (Some("DR6 trap / DR7 enable bit of breakpoint n"), None, true); } (None, None, true) }
             _ => (None, None, false),
         },
         _ => (None, None, false),
